@@ -134,8 +134,11 @@ class OpGen(object):
             self.doc.features.add("nullable-variable-in-defaulted-non-null-argument")
             if r < 0.3:
                 default = self.sg.input_value_for(vt)
-        elif t[0] != "nonnull" and r < 0.3:
-            vt = S.nn(t)                 # stricter variable into nullable position
+        elif r < 0.3:
+            # stricter variable into a more permissive position, at any wrapper depth ([T!]! into [T]!)
+            vt = S.strengthen(t, rng)
+            if vt == t and t[0] != "nonnull":
+                vt = S.nn(t)
         elif r < 0.55 and not nested:
             d = self.sg.input_value_for(t)
             if d is not None or t[0] != "nonnull":
@@ -194,6 +197,20 @@ class OpGen(object):
                 out.append(t.name)
         return out
 
+    def exclusive_leaf_pairs(self, scope):
+        s = self.s
+        out = []
+        poss = [s.types[n] for n in s.possible_types(scope)]
+        for i, t1 in enumerate(poss):
+            for t2 in poss[i + 1:]:
+                for f1 in t1.fields:
+                    if f1.args or s.kind(S.unwrap(f1.type)) not in ("scalar", "enum"):
+                        continue
+                    for f2 in t2.fields:
+                        if not f2.args and f2.name != f1.name and f2.type == f1.type:
+                            out.append((t1.name, f1, t2.name, f2))
+        return out
+
     def make_field(self, f, scope, depth, force_leaf_only=False):
         args = self.field_args(f)
         alias = None
@@ -246,6 +263,22 @@ class OpGen(object):
                     self.cur_frags.append(frag)
                 sels.append(OSpread(frag.name, self.directives_for("FRAGMENT_SPREAD")))
                 self.doc.features.add("fragment-spread")
+        # one alias for different fields of object types that exclude each other (same leaf type)
+        if self.cur_frags is not None and st.kind in ("interface", "union") and self.chance(0.3):
+            pairs = self.exclusive_leaf_pairs(scope)
+            if pairs:
+                t1, f1, t2, f2 = rng.choice(pairs)
+                self.shared_counter = getattr(self, "shared_counter", 0) + 1
+                key = "sh%d" % self.shared_counter
+                a = [OField(f1.name, t1, key)]
+                b = [OField(f2.name, t2, key)]
+                if self.chance(0.4):
+                    a = [OInline(None, a)]
+                if self.chance(0.2):
+                    b = [OInline(None, b)]
+                sels.append(OInline(t1, a))
+                sels.append(OInline(t2, b))
+                self.doc.features.add("shared-alias-on-exclusive-types")
         # encourage merged keys: repeat an object-typed field with another sub-selection
         objs = [x for x in sels if x.kind == "field" and x.selection is not None]
         if objs and self.chance(0.3):
